@@ -7,7 +7,7 @@ import math
 import numpy as np
 from hypothesis import strategies as st
 
-from .. import gen, oracle, sitesys
+from .. import cases, gen, oracle, sitesys
 from ..runner import Raised, Skip, Sub, Violation, gcall
 
 PROPERTY = 'C11'
@@ -79,6 +79,7 @@ def run_species(case):
 
     M = np.array(case['lattice']['matrix'])
     traj = sitesys.full_trajectory(case, species_kind=case.get('species_kind', 'Species'))
+    cases.prelude(traj, case.get('prelude'))
     diff = np.array(case['diff'])
     fw = case['framework']
     symbols = ['Li'] * diff.shape[1] + list(fw['symbols'])
@@ -152,6 +153,8 @@ def run_states(case):
     tr = gcall(traj.transitions_between_sites, sitesys.sites(case), 'Li', site_radius=float(case['radius']), site_inner_fraction=case['inner_fraction'])
     states = np.asarray(tr.states)
     res, mx = case['resolution'], case['max_dist']
+    for obj in (traj, tr.trajectory, tr.diff_trajectory):  # read-only queries between building the transitions and asking for the RDFs
+        cases.prelude(obj, case.get('prelude'))
     rdfs = gcall(tr.radial_distribution, floating_specie='Li', max_dist=mx, resolution=res)
     diff = np.array(case['diff'])
     fw = case['framework']
